@@ -40,7 +40,9 @@ with open('/verif/seeded/RESULTS.md','w') as f:
     f.write('| seeded change | needs to manifest | own check | rules reporting | other checks reporting |\n|---|---|---|---|---|\n')
     for sid,r in res.items():
         meta=json.load(open(f'/verif/seeded/{sid}/meta.json'))
-        f.write(f"| {sid} | {meta['needs_to_manifest']} | {r['own_check']} | {', '.join(r['own_rules'])} | {', '.join(r['other_checks_with_violation'])} |\n")
+        need=meta['needs_to_manifest'].replace('|','\\|')
+        if len(need)>240: need=need[:237].rsplit(' ',1)[0]+' …'
+        f.write(f"| {sid} | {need} | {r['own_check']} | {', '.join(r['own_rules'])} | {', '.join(r['other_checks_with_violation'])} |\n")
 n=len(res); v=sum(1 for r in res.values() if r['own_check']=='VIOLATION'); u=sum(1 for r in res.values() if r['own_check']=='undecided-only')
 print(f"SUMMARY seeds={n} own_check_violation={v} undecided_only={u} missed={n-v-u}")
 PY
